@@ -11,7 +11,16 @@ pub const DIALECT_NAMES: [&str; 13] = [
     "postgresql", "redshift", "snowflake", "sqlite",
 ];
 
+/// With VERIF_WRAP=1 every dialect handed to the real code is the generated forwarding wrapper
+/// around the built-in one (C15: real code under the wrapper vs model under the built-in's record).
 pub fn dialect(name: &str) -> Box<dyn Dialect> {
+    if std::env::var("VERIF_WRAP").map(|v| v == "1").unwrap_or(false) {
+        return Box::new(crate::wrap::Wrapped(plain_dialect(name)));
+    }
+    plain_dialect(name)
+}
+
+pub fn plain_dialect(name: &str) -> Box<dyn Dialect> {
     match name {
         "generic" => Box::new(GenericDialect {}),
         "ansi" => Box::new(AnsiDialect {}),
